@@ -214,7 +214,7 @@ class Ctx:
         meta = self.work / f"meta-{name}"
         dumpf = self.work / f"{name}.dump"
         heap = os.environ.get("VERIF_TLC_HEAP", "8g")
-        cmd = ["java", "-Xss16m", "-XX:+UseParallelGC", f"-Xmx{heap}", f"-DTLA-Library={LIB}",
+        cmd = ["java", "-Xss16m", "-XX:+UseParallelGC", f"-Xmx{heap}", f"-DTLA-Library={LIB}", f"-Djava.io.tmpdir={self.work}",
                "-cp", JAR, "tlc2.TLC", "-workers", str(workers), "-metadir", str(meta),
                "-noGenerateSpecTE", "-seed", str(self.seed), "-config", str(cfgp)]
         if dump:
